@@ -43,6 +43,7 @@ def check(ctx: Ctx) -> None:
     r13_bodies_are_bytes(ctx, "C16.R8")
     no_deferred_storage_effects(ctx)
     fsync_descriptors_are_real(ctx)
+    short_writes_completed(ctx)
 
 
 def _open_flag_names(ctx: Ctx, f: FunctionInfo, e: Optional[ast.AST], at: int, depth: int = 0) -> Optional[Set[str]]:
@@ -340,6 +341,20 @@ def r2(ctx: Ctx) -> None:
                     oo = sl.origins(o.args[0] if o.args else None, fs.id)
                     if any(isinstance(c, ast.Call) and (dotted(c.func) or "") == "os.path.dirname" for c in oo["calls"]):
                         dirsyncs.append(fs)
+                        # ... and it is THE directory of the published file: dirname applied exactly once to the rename's target
+                        # (dirname of an already-taken dirname syncs the grandparent: always succeeds, persists nothing)
+                        from .common import value_signature
+                        host = next((x for x in g.nodes if x.ast is not None and x.kind in ("stmt", "call") and any(y is o for y in ast.walk(x.ast))), None)
+                        so = value_signature(ctx, f, o.args[0], host.id if host is not None else fs.id) if o.args else frozenset()
+                        sd = value_signature(ctx, f, dst, rp.id) if dst is not None else frozenset()
+                        if len(so) == 1 and len(sd) == 1 and "?" not in so and "?" not in sd:
+                            a_, b_ = next(iter(so)), next(iter(sd))
+                            want = {f"os.path.dirname({b_})", f"os.path.dirname(({b_}))"}
+                            strip = lambda t: t.replace("(", "").replace(")", "")  # noqa: E731
+                            okd = strip(a_) == strip(f"os.path.dirname{b_}") or a_ in want
+                            ctx.ob("C16.R2", f, "the fsynced directory is dirname(renamed path), taken once", fs, okd,
+                                   f"opened `{a_[:70]}` vs rename target `{b_[:50]}`" + ("" if okd else ": a different directory is synced - "
+                                                                                         "the new entry is not persisted"), text="dir-of-target")
             w = None
             for s in [d for d, l in g.succ[rp.id] if l in NORMAL]:
                 w = find_path(g, s, [g.exit], avoid=[d.id for d in dirsyncs], labels=NORMAL)
@@ -361,3 +376,35 @@ def r2(ctx: Ctx) -> None:
                 ok = cls <= {"OSError", "AttributeError", "IOError"} or (rp.id in [n.id for n in g.nodes if inner is not None and in_try_body(n, inner)])
                 ctx.ob("C16.R2", f, "only OSError/AttributeError tolerated around the directory fsync", d, ok,
                        f"innermost handler classes: {sorted(cls)}")
+
+
+def short_writes_completed(ctx: Ctx, rid: str = "C16.R11") -> None:
+    ctx.rule(rid, "a short write is completed or refused, never published: os.write may store fewer bytes than it was given and "
+             "return that count - in the local publisher every os.write's result is kept and compared with the length still to "
+             "be written (a discarded count lets a truncated temp file be fsynced, renamed and acknowledged) [D22]", 1)
+    f = ctx.fn("storage_backend.LocalStorageBackend.write_file")
+    g = ctx.cfg(f)
+    ws = [n for n in g.calls() if n.callee is not None and n.callee.kind == "prim" and n.callee.name == "os.write" and n.id in g.reachable()]
+    if not ws:
+        from .common import temp_fd_writes
+        buffered = [w for w, _fd, fl in temp_fd_writes(ctx, f) if fl is not None]
+        ctx.ob(rid, f, "the content write cannot be short", buffered[0] if buffered else None, bool(buffered),
+               "a buffered file object's write() loops until everything is handed to the kernel" if buffered else
+               "no content write found in write_file", text="buffered")
+        return
+    for w in ws:
+        st = w.stmt
+        discarded = isinstance(st, ast.Expr) and st.value is w.ast
+        var = st.targets[0].id if isinstance(st, ast.Assign) and len(st.targets) == 1 and isinstance(st.targets[0], ast.Name) and st.value is w.ast else None
+        # the count is consumed when it is part of a larger expression (`if os.write(..) != len(..)`) or bound to a name some
+        # other statement reads (a comparison with the length, or the slice that advances the remaining view)
+        if var is None:
+            compared = not discarded and not isinstance(st, ast.Assign)
+        else:
+            compared = any(b is not w and b.ast is not None and any(
+                isinstance(x, (ast.Compare, ast.Subscript, ast.BinOp, ast.AugAssign)) and var in names_in(x)
+                for x in ast.walk(b.stmt if b.kind != "branch" and b.stmt is not None else b.ast)) for b in g.nodes)
+        ctx.ob(rid, f, "the count os.write returns is checked against the length", w, (not discarded) and compared,
+               f"`{w.text[:50]}`: " + ("its count decides whether more has to be written" if (not discarded) and compared else
+                                      "the returned count is discarded - a short write is fsynced, renamed and published as a truncated file"),
+               text=norm_text(w.ast)[:40])
